@@ -190,6 +190,7 @@ func history(seed int64, length int, T time.Duration, w *bufio.Writer, events *i
 	time.Sleep(1500 * time.Millisecond)
 	s := vs.Server
 	g := sh.NewGen(seed)
+	g.NoSerf = true
 	rs := battery()
 	// a short directed prefix: create / delete / re-create of single items and of a subtree, so that every
 	// found <-> not-found transition of the single-item reads is exercised in every history
